@@ -43,3 +43,8 @@ package cpuallocator
 //@ loop 4 in (*topologyCache).discoverCPUClusters at "range sys.CoreKinds()"
 //@   modifies c.kind[*]
 //@   invariant[C08] c.kind != nil && newobj(c.kind)
+// what the append of a package's clusters produced, stated per position of the new list
+// ($t87 is c.clusters before the append, $t17 the package's local list `clusters`)
+//@ assert[C08] in (*topologyCache).discoverCPUClusters after "c.clusters = append(c.clusters, clusters...)": len(c.clusters) == len($t87) + len($t17) &&
+//@    (forall k int :: 0 <= k && k < len($t87) ==> c.clusters[k] == $t87[k]) &&
+//@    (forall k int :: len($t87) <= k && k < len(c.clusters) ==> c.clusters[k] == $t17[k - len($t87)])
